@@ -26,6 +26,8 @@ class Scenario:
         self.ndisk = self.nh
         self.n = {"mutex": 0, "cv": 0, "mbox": 0, "mq": 0}
         self.sems = []
+        self.pool_mutex = []
+        self.pool_sem = []
         self.bars = []
         self.scripts = []
         self.actors = []          # [name, host, script, daemon, killtime]
@@ -33,18 +35,23 @@ class Scenario:
         self.plain = set()        # actors whose script only sleeps/execs (safe to suspend)
 
     # -- objects ---------------------------------------------------------------------------
-    def mutex(self, share=0.3):
-        if self.n["mutex"] and self.rng.random() < share:
-            return self.rng.randrange(self.n["mutex"])
+    def mutex(self, share=0.3, private=False):
+        """A mutex: a new one, or (probability share) one that another motif uses too. Private ones are never handed out again."""
+        if self.pool_mutex and not private and self.rng.random() < share:
+            return self.rng.choice(self.pool_mutex)
         self.n["mutex"] += 1
+        if not private:
+            self.pool_mutex.append(self.n["mutex"] - 1)
         return self.n["mutex"] - 1
 
     def new(self, kind):
         self.n[kind] += 1
         return self.n[kind] - 1
 
-    def sem(self, cap):
+    def sem(self, cap, private=True):
         self.sems.append(cap)
+        if not private:
+            self.pool_sem.append(len(self.sems) - 1)
         return len(self.sems) - 1
 
     def bar(self, size):
@@ -147,10 +154,10 @@ def _after_tie(sc, rng):
         m = sc.mutex(0.5)
         return [("lock", m), ("sleep", 1), ("unlock", m)]
     if r < 0.55:
-        if not sc.sems or rng.random() < 0.6:
-            s = sc.sem(rng.choice([1, 1, 2]))
+        if not sc.pool_sem or rng.random() < 0.6:
+            s = sc.sem(rng.choice([1, 1, 2]), private=False)
         else:
-            s = rng.randrange(len(sc.sems))
+            s = rng.choice(sc.pool_sem)
         return [("acq", s, 40), ("sleep", 1), ("rel", s)]
     if r < 0.7:
         m = sc.mutex(0.5)
@@ -317,7 +324,7 @@ def m_mass_kill(sc, rng, mi):
     v = rng.randint(3, 8)
     t = rng.choice([4, 8, 16, 24])
     how = rng.choice(["kills", "kills", "killtime", "mixed"])
-    m = sc.mutex(0.0)
+    m = sc.mutex(private=True)
     s = sc.sem(0)
     mb = sc.new("mbox")
     q = sc.new("mq")
@@ -327,7 +334,7 @@ def m_mass_kill(sc, rng, mi):
     hosts = sc.distinct_hosts(v)
     sc.actor("k%dh" % mi, [("lock", m), ("sleepu", t + 2), ("unlock", m)])      # keeps m busy beyond the kill date
     for i in range(v):
-        blk = rng.choice(["sleep", "exec", "get", "mqget", "acq", "lock", "cvwait", "join", "io", "waitany", "put"])
+        blk = rng.choice(["sleep", "exec", "get", "mqget", "acq", "cvwait", "join", "io", "waitany", "put"])
         if blk == "sleep":
             ops = [("sleep", FAR)]
         elif blk == "exec":
@@ -340,8 +347,6 @@ def m_mass_kill(sc, rng, mi):
             ops = [("mqget", q)]
         elif blk == "acq":
             ops = [("acq", s)]
-        elif blk == "lock":
-            ops = [("sleep", 1), ("lock", m)]
         elif blk == "cvwait":
             ops = [("cvwait", c)]
         elif blk == "io":
@@ -387,6 +392,8 @@ def m_prodcons(sc, rng, mi):
                 else:
                     ops += [("puta", 0, box, size), ("wait", 0, rng.choice([-1, 50]))]
             ops.append(("sleep", rng.choice([0, 0, 1])))
+        # a pending asynchronous put dies with its issuer: wait for them
+        ops += [("wait", o[1], -1) for o in ops if o[0] == "mqputa"]
         sc.actor("p%dp%d" % (mi, i), ops)
     total = p * r
     for j in range(c):
